@@ -50,6 +50,7 @@ class Obligation:
     line: Optional[int] = None
     note: str = ""
     expect_sat: bool = False  # cover / canary: must NOT be provable
+    only_hyps: Any = None  # isolated obligation: proved from exactly these hypotheses (each one an assumed / proved fact)
 
 
 @dataclass
@@ -123,7 +124,7 @@ class Ctx:
         self._obl_names[name] = k + 1
         return name if k == 0 else f"{name}~{k}"
 
-    def oblige(self, goal, label, kind="ensures", note="", assume_after=True):
+    def oblige(self, goal, label, kind="ensures", note="", assume_after=True, only_hyps=None):
         """Record the obligation ``assumptions => goal``; then (by default) assume it,
         as the rest of the path is only meaningful if it holds."""
         if goal is True or self.suppress:
@@ -135,7 +136,7 @@ class Ctx:
         if z3.is_and(goal) and goal.num_args() > 1:
             # one obligation per conjunct: smaller queries, more stable verdicts
             for i, c in enumerate(goal.children()):
-                self.oblige(c, f"{label}.{i}", kind, note, assume_after)
+                self.oblige(c, f"{label}.{i}", kind, note, assume_after, only_hyps)
             return
         if kind not in ("ensures", "raises"):
             # obligations raised inside the body (callee preconditions, index bounds, loop invariants) are
@@ -143,8 +144,14 @@ class Ctx:
             # share that prefix (the executor is deterministic), so equal names mean equal formulas
             label = f"{label}@{''.join('T' if b else 'F' for b in self.script[: self.pos]) or '-'}"
         name = self._unique(f"{self.prefix}#{kind}:{label}")
+        if only_hyps is not None:
+            # every hypothesis of an isolated obligation must already be in the context (assumed or proved earlier)
+            have = {a.get_id() for a in self.assumptions}
+            for h in only_hyps:
+                if h.get_id() not in have and not all(c.get_id() in have for c in (h.children() if z3.is_and(h) else [h])):
+                    raise PathAbort(f"isolated obligation {label}: hypothesis is not an established fact", self.cur_line)
         self.obligations.append(
-            Obligation(name, kind, len(self.assumptions), goal, self.cur_line, note)
+            Obligation(name, kind, len(self.assumptions), goal, self.cur_line, note, only_hyps=list(only_hyps) if only_hyps is not None else None)
         )
         if assume_after:
             self.assume(goal)
